@@ -98,19 +98,28 @@ INC9 == 9  BT == 10  CH == 11  DEPTH == 12  SOLNB == 13
 
 InitState(T) ==
   LET P == T.P IN
-  [frames  |-> << [box |-> P.doms, en |-> AllOn(P)] >>,
+  [frames  |-> << [box |-> P.doms, en |-> AllOn(P), base |-> P.doms] >>,
+   wake    |-> <<0, 0>>,   \* <<domain, moved bounds>> whose watchers must be in the queue when the next pass starts
    oracle  |-> BoxSize(P.doms) <= SolCap,
    sols    |-> IF BoxSize(P.doms) <= SolCap THEN Solutions(P) ELSE {},
    yielded |-> {},
    cnt     |-> [i \in 1..13 |-> 0],
    lvls    |-> 0,
-   shOn    |-> FALSE, shBase |-> [box |-> <<>>, en |-> <<>>], shN |-> 0,
+   shOn    |-> FALSE, shBase |-> [box |-> <<>>, en |-> <<>>, base |-> <<>>], shN |-> 0,
    probe   |-> <<>>, pst |-> -1,
    hasInc  |-> FALSE, inc |-> <<>>,
    over    |-> FALSE,      \* the search stands above the configured height: the only legal next step is the error
    dead    |-> FALSE]      \* the current frame was refuted by the last pass
 
 Cur(s) == s.frames[Len(s.frames)]
+\* the engine-level half of "announces every bound it moved": the enabled constraints that watch (trigger matrix
+\* recorded from the real Problem.init) a moved bound of the branched / resumed domain are queued when the pass starts
+WatchersQueued(P, s, en, q0) ==
+  s.wake[1] = 0 \/ \A q \in 1..NProp(P) :
+     (en[q] /\ \E b \in {1, 2, 4} : Bit(s.wake[2], b) /\ Bit(P.trig[s.wake[1]][q], b)) => q0[q]
+\* C07 as a state invariant of the engine: a constraint that is disabled when a pass starts can no longer be violated
+DisabledAreEntailed(P, en, box) == \A q \in 1..NProp(P) : ~en[q] => EntailedOn(P, P.props[q], box)
+DiffDom(a, b) == LET D == {d \in 1..Len(a) : a[d] # b[d]} IN IF D = {} THEN 0 ELSE Min(D)
 Objective(P, T, x) == x[DomOf(P, T.var)] + OffOf(P, T.var)
 Better(T, a, b) == IF T.mode = "min" THEN a < b ELSE a > b
 
@@ -137,6 +146,8 @@ PassBC(T, s, e) ==
         <<"C09:level",                 e.top = n - 1>>,
         <<"C09:restores-box",          e.in = fr.box>>,
         <<"C07:restores-flags",        e.en = fr.en>>,
+        <<"C07:disabled-but-not-entailed", ~NonEmptyBox(e.in) \/ BoxSize(e.in) > GfpCap \/ DisabledAreEntailed(P, e.en, e.in)>>,
+        <<"C09:moved-bounds-not-announced-to-the-watchers", WatchersQueued(P, s, e.en, e.q0)>>,
         <<"C09:pass-keeps-level",      e.trunc \/ e.top2 = e.top>>,
         <<"C09:stack-untouched",       e.trunc \/ \A k \in 1..(n - 1) : k <= Len(e.stack) =>
                                           (e.stack[k] = s.frames[k].box /\ e.ens[k] = s.frames[k].en)>>,
@@ -151,8 +162,8 @@ PassBC(T, s, e) ==
         <<"C07:enabled-sound",         ~ok \/ e.trunc \/ \A q \in off : EntailedOn(P, P.props[q], e.out)>>,
         <<"C17:stats-exact",           e.trunc \/ e.stats = cnt1>>
       >>)
-      fr2  == [box |-> e.out, en |-> e.en2]
-  IN << [s EXCEPT !.frames = [s.frames EXCEPT ![n] = fr2], !.cnt = cnt1, !.pst = e.st, !.dead = ~ok], bad >>
+      fr2  == [box |-> e.out, en |-> e.en2, base |-> fr.base]
+  IN << [s EXCEPT !.frames = [s.frames EXCEPT ![n] = fr2], !.cnt = cnt1, !.pst = e.st, !.dead = ~ok, !.wake = <<0, 0>>], bad >>
 
 (* The whole shaving pass seen from outside (alg = 1); its nested events    *)
 (* have already been consumed one by one.                                   *)
@@ -187,8 +198,9 @@ ShaveStart(T, s, e) ==
       bad == Failed(<<
         <<"C09:restores-box",   e.in = fr.box>>,
         <<"C07:restores-flags", e.en = fr.en>>,
+        <<"C09:moved-bounds-not-announced-to-the-watchers", WatchersQueued(T.P, s, e.en, e.q0)>>,
         <<"C03:searches-empty-box", NonEmptyBox(e.in)>> >>)
-  IN << [s EXCEPT !.shOn = TRUE, !.shBase = fr, !.shN = Len(s.frames), !.cnt = Inc(@, SHPASS)], bad >>
+  IN << [s EXCEPT !.wake = <<0, 0>>, !.shOn = TRUE, !.shBase = fr, !.shN = Len(s.frames), !.cnt = Inc(@, SHPASS)], bad >>
 
 (* A branching decision (search: d = 0; shaving probe: d = 1).              *)
 Branch(T, s, e) ==
@@ -215,11 +227,11 @@ Branch(T, s, e) ==
                                          (~e.ens[k][q] /\ cur.en[q]) => EntailedOn(P, P.props[q], e.levels[k])>>,
         <<"C19:beyond-spare-levels", e.top2 + 1 <= T.cfg.height + 2>>
       >>)
-      newf == SubSeq(s.frames, 1, n - 1) \o [k \in 1..L |-> [box |-> e.levels[k], en |-> e.ens[k]]]
+      newf == SubSeq(s.frames, 1, n - 1) \o [k \in 1..L |-> [box |-> e.levels[k], en |-> e.ens[k], base |-> cur.box]]
       cnt1 == IF e.d = 0 THEN [Inc(s.cnt, CH) EXCEPT ![DEPTH] = IF e.top2 > @ THEN e.top2 ELSE @]
               ELSE Inc(s.cnt, SHNB)
   IN << [s EXCEPT !.frames = newf, !.cnt = cnt1, !.lvls = IF e.d = 0 THEN @ + (L - 1) ELSE @,
-                  !.probe = cur.box, !.pst = -1, !.dead = FALSE,
+                  !.probe = cur.box, !.pst = -1, !.dead = FALSE, !.wake = IF okd THEN <<d, moved>> ELSE <<0, 0>>,
                   !.over = okd /\ (e.top2 + 1 > T.cfg.height + (IF e.d = 1 THEN 1 ELSE 0))], bad >>
 
 VarChoice(T, s, e) ==
@@ -244,8 +256,10 @@ Resume(T, s, e) ==
            <<IF inProbe THEN "C10:probe-restore" ELSE "C09:restores-box",  e.box = expBox>>,
            <<"C07:restores-flags",   e.en = saved.en>> >>)
          cnt1 == IF inProbe THEN Inc(Inc(s.cnt, BT), IF s.pst = 0 THEN SHCHG ELSE SHNOCHG) ELSE Inc(s.cnt, BT)
-     IN << [s EXCEPT !.frames = Append(SubSeq(s.frames, 1, n - 2), [box |-> e.box, en |-> e.en]),
-                     !.cnt = cnt1, !.dead = FALSE, !.pst = -1], bad >>
+         dd == DiffDom(saved.base, e.box)
+     IN << [s EXCEPT !.frames = Append(SubSeq(s.frames, 1, n - 2), [box |-> e.box, en |-> e.en, base |-> saved.base]),
+                     !.cnt = cnt1, !.dead = FALSE, !.pst = -1,
+                     !.wake = IF dd = 0 \/ Len(saved.base) # Len(e.box) THEN <<0, 0>> ELSE <<dd, Moved(saved.base[dd], e.box[dd])>>], bad >>
 
 Solution(T, s, sol, stats, kind) ==
   LET P   == T.P
@@ -277,7 +291,7 @@ Done(T, s, e) ==
 ResetEv(T, s, e) ==
   LET bad == Failed(<<
         <<"C03:reset-exact", e.box = T.P.doms /\ e.en = AllOn(T.P) /\ e.top = 0>> >>)
-  IN << [s EXCEPT !.frames = << [box |-> e.box, en |-> e.en] >>, !.dead = FALSE, !.shOn = FALSE], bad >>
+  IN << [s EXCEPT !.frames = << [box |-> e.box, en |-> e.en, base |-> e.box] >>, !.dead = FALSE, !.shOn = FALSE, !.wake = <<0, 0>>], bad >>
 
 Tighten(T, s, e) ==
   LET P == T.P
@@ -289,7 +303,7 @@ Tighten(T, s, e) ==
         <<"C03:tighten-inside",       e.box[d][1] >= P.doms[d][1] /\ e.box[d][2] <= P.doms[d][2]>>,
         <<"C03:tighten-keeps-better", \A x \in s.sols : Better(T, Objective(P, T, x), incObj) => InBox(x, e.box)>>,
         <<"C03:tighten-excludes",     \A v \in (e.box[d][1])..(e.box[d][2]) : Better(T, v + OffOf(P, e.var), incObj)>> >>)
-  IN << [s EXCEPT !.frames = << [box |-> e.box, en |-> AllOn(P)] >>], bad >>
+  IN << [s EXCEPT !.frames = << [box |-> e.box, en |-> AllOn(P), base |-> e.box] >>, !.wake = <<0, 0>>], bad >>
 
 SearchEnd(T, s, e) ==     \* solve_one returned None inside optimize
   << [s EXCEPT !.cnt = s.cnt], Failed(<< <<"C17:stats-exact", e.stats = s.cnt>> >>) >>
